@@ -147,6 +147,14 @@ Definition fold_un (o : unop) (t : ity) (a : Z) : fres :=
 Definition baked (t : ity) (v : Z) : Z :=
   if (negb (sgn t) && (v <? 0)) || negb (in_rangeb t v) then wrap_value t v else v.
 
+(* C type of the literal token add_scalar_literal prints for the (already re-wrapped) value:
+   suffix U for an unsigned numtype, LL when the value is outside cint or equals cint.min *)
+Definition lit_ctype (numtype : ity) (num : Z) : ity :=
+  let n := if sgn numtype && (num =? tmin numtype) then num + 1 else num in
+  if in_rangeb I32 n && negb (n =? tmin I32)
+  then (if sgn numtype then I32 else U32)
+  else (if sgn numtype then I64 else U64).
+
 (* implicit conversion of an integral constant *)
 Definition conv_accepts (d : ity) (v : Z) : bool := in_rangeb d v.
 
